@@ -2915,11 +2915,10 @@ func (s *Store) fsmRestore(rc io.ReadCloser) (retErr error) {
 	vhook.Crash("restore.swapped")
 	s.logger.Printf("successfully opened database at %s due to restore", s.db.Path())
 	// Installed SQLite database is safe for fast restarts again.
-	var latestSnapID string
-	if snaps, err := s.snapshotStore.List(); err != nil {
-		return fmt.Errorf("failed to list snapshots post restore: %s", err)
-	} else if len(snaps) > 0 {
-		latestSnapID = snaps[0].ID
+	// Read the directory directly: the Snapshot Store may be locked by a reap.
+	latestSnapID, err := snapshot.LatestID(s.snapshotDir)
+	if err != nil {
+		return fmt.Errorf("failed to get latest snapshot ID post restore: %s", err)
 	}
 	if err := s.createSnapshotFingerprint(latestSnapID); err != nil {
 		return fmt.Errorf("failed to create snapshot fingerprint post restore: %s", err)
